@@ -228,6 +228,10 @@ func report(eng *Engine, prop, tier, verif string, cfg *PropCfg, res *runResult,
 		level = "other"
 		expl = fmt.Sprintf("%d of %d obligations discharged; %d violation(s), %d known finding(s): not a complete proof on this tree", discharged, total, violations, knownHit)
 	}
+	if level == "proof" && cfg.LevelOther != "" {
+		level = "other"
+		expl = fmt.Sprintf("%d of %d proof obligations discharged; %s", discharged, total, cfg.LevelOther)
+	}
 	trusted := []string{"govc VC generator (this repository, /verif/govc): SSA semantics of DESIGN.md section 2.3", "golang.org/x/tools/go/ssa v0.29.0", "z3 4.8.12 / z3 5.1.0 / cvc5 1.0 (any one answering unsat)"}
 	var contractFiles []string
 	for _, f := range eng.cs.Files {
